@@ -58,7 +58,8 @@ try:
             for f in demos:
                 names |= set(re.findall(r"^func (Test\w+)\(", open(f).read(), re.M))
             subs = sorted({s for _, s in copied})
-            rc, out = sh(["go", "test", "-count=1", "-vet=off", "-run", "^(%s)$" % "|".join(sorted(names))] + ["./" + s for s in subs], cwd=tree, timeout=900)
+            racef = ["-race"] if prop == "C37" or os.environ.get("SEED_DEMO_RACE") else []
+            rc, out = sh(["go", "test", "-count=1", "-vet=off"] + racef + ["-run", "^(%s)$" % "|".join(sorted(names))] + ["./" + s for s in subs], cwd=tree, timeout=900)
             for dst, _ in copied: os.remove(dst)
             return rc, out
         rc, out = rundemo(wt)
